@@ -44,7 +44,7 @@ func mark() { markN(3) }
 
 //go:noinline
 func markN(skip int) {
-	var pcs [64]uintptr
+	var pcs [512]uintptr
 	n := runtime.Callers(skip, pcs[:])
 	fr := runtime.CallersFrames(pcs[:n])
 	marked = marked[:0]
@@ -359,6 +359,39 @@ func firstSite(mech string) int {
 		}
 	}
 	return 0
+}
+
+// Helper chains far deeper than any small counter: CallerSkipFrame(j) / Caller(j) with j around
+// 127/128/255/256 through 300 wrapper frames ("helper wrappers of any depth").
+func TestDeepWrappers(t *testing.T) {
+	out := &rw{}
+	var n int64
+	for id, si := range sites {
+		if !si.UsesJ || !(strings.HasSuffix(si.Name, "/Info/Msg") || strings.HasSuffix(si.Name, "/PkgInfo/Msg") || strings.HasSuffix(si.Name, "/Log/Send")) {
+			continue
+		}
+		for _, j := range []int{100, 127, 128, 129, 200, 255, 256, 257} {
+			mech := "event"
+			if si.Kind == "context" {
+				mech = "ctx"
+			}
+			c := &Case{Site: id, Name: si.Name, Mech: mech, J: j, Depth: 300, Hooks: "none"}
+			msg := run(c, nil, out)
+			if msg == "SKIP" {
+				continue
+			}
+			n++
+			rec.Case([]byte(fmt.Sprint("deep", id, j)), true, "deep-wrappers")
+			if msg != "" {
+				ev.SaveReplay("C19-deep", c)
+				fmt.Printf("VERIF-FAIL: %s with skip %d through 300 wrapper frames: %s\n", si.Name, j, msg)
+				t.Fatalf("%s j=%d depth=300: %s", si.Name, j, msg)
+			}
+		}
+	}
+	if n == 0 {
+		t.Fatalf("HARNESS-ERROR: no deep-wrapper case ran")
+	}
 }
 
 // A direct Logger.Write call made by a package that is itself named "log" (an application's own
